@@ -71,6 +71,14 @@ theorem applyDelta_spec (m : List Nat) (d : Delta) (hnd : d.deleted.Nodup)
     rw [count_incrAll]
   · intro f; rw [h2 f, count_incrAll]
 
+theorem count_nodup {l : List Nat} (h : l.Nodup) (f : Nat) : l.count f = if f ∈ l then 1 else 0 := by
+  split
+  · rename_i hm
+    have h1 := List.nodup_iff_count.mp h f
+    have h2 := List.count_pos_iff.mpr hm
+    omega
+  · exact List.count_eq_zero.mpr ‹_›
+
 /-! ### association lists -/
 
 theorem lookup_filter_ne {β : Type} (l : List (Nat × β)) (k j : Nat) :
